@@ -286,7 +286,13 @@ PROPS = {
                 "library accepts iff the reference does, MACs are equal octet for octet, the error class is the RFC's for structural edits, verified messages "
                 "equal the pre-signing octets, no panic (the error response is built for every server-side error); the client-side transport wrapper net::client::tsig::Connection against the reference acting as a server "
                 "(the request as it leaves the wrapper verifies by the reference; an honestly signed answer reaches the caller as made, one with a flipped "
-                "bit, another secret, a time outside the window, no TSIG, or a MAC computed without the request MAC is refused); distinct = (algorithm, truncation, "
+                "bit, another secret, a time outside the window, no TSIG, or a MAC computed without the request MAC is refused); the server-side middleware net::server::middleware::tsig::TsigMiddlewareSvc over a key store of 1-3 keys in front of a service, the reference acting as "
+                "the client (an authentic request reaches the service once, as it was before signing and with its key as metadata; every response - one, a sequence announced "
+                "with BeginTransaction in either of the two ways, responses filled to the brim that leave the reserved octets free - verifies by the reference as RFC 8945 5.3 "
+                "chains them and is the service's response; a response with no room for the record is replaced by a signed question-only response with TC set; unsigned traffic "
+                "passes untouched; a request that fails verification - one of the 25 structural edits, a flipped bit, another secret, a key the server does not hold, a time "
+                "outside the window - never reaches the service and is answered with the RCODE, TSIG error and signedness RFC 8945 5.2 / 5.3.2 assign, BADTIME signed and "
+                "carrying the server's clock); distinct = (algorithm, truncation, "
                 "fudge class, clock side, outcome, size class) resp. (sequence length class, gap, tail)",
         "assumptions": ["'returns the message to its pre-signing octets' is judged on the header and everything up to the last record: Message::remove_last_additional "
                         "only lowers ARCOUNT, the TSIG RR's octets stay behind the last record where no section reaches them",
